@@ -13,13 +13,13 @@ Local Open Scope nat_scope.
 
 (* ------------------------------------------------------------------ weights and invariant *)
 
-Definition mx_wQ (th : mx_thread) : nat := match xpc th with XLSleep _ _ => 1 | _ => 0 end.
+Definition mx_wQ (th : mx_thread) : nat := match xpc th with XLSleep _ _ _ => 1 | _ => 0 end.
 Definition mx_wR (th : mx_thread) : nat := match xpc th with XURel true => 1 | _ => 0 end.
 Definition mx_wG (th : mx_thread) : nat := match xpc th with XLHand _ => 1 | _ => 0 end.
 
 Definition mx_lok2 (th : mx_thread) : Prop :=
   match xpc th with
-  | XLCas _ true _ old => xk old = true
+  | XLCas _ _ true _ old => xk old = true
   | XDead => False
   | _ => True
   end.
